@@ -170,12 +170,28 @@ func runC14() *RunResult {
 	// path: prefix of every step kind (no functions inside), then 1-3 distinct functions
 	doc := newDoc(dg.doc(trap))
 	pg := genPathFor(doc.Val, 0, trap, 4, 0)
+	// a third of the cases: the prefix comes from the families of the reference model, and
+	// then "the values selected before the first function" are what the MODEL selects - a
+	// selection defect of the library (a dropped element, a null member taken for missing) is
+	// then visible as a function that was not called for a selected value
+	if chance(33) {
+		pg = genModelPathFor(doc.Val, trap)
+		pg.SingleValued = false
+		pg.Prefix = pg.Text
+		single := true
+		for _, st := range pg.Model {
+			if st.Kind != mName {
+				single = false
+			}
+		}
+		pg.SingleValued = single
+	}
 	fl := distinctFuncs(cfg.Funcs, 1+rn(3))
 	text := pg.Prefix
 	for _, f := range fl {
 		text += "." + funcNames[f] + "()"
 	}
-	p := &PathSpec{Text: text, Prefix: pg.Prefix, Funcs: fl, SingleValued: pg.SingleValued}
+	p := &PathSpec{Text: text, Prefix: pg.Prefix, Funcs: fl, SingleValued: pg.SingleValued, Model: pg.Model}
 	w.docs = []*Doc{doc}
 	res0 := &RunResult{Probes: map[string]int{}, Faults: map[string]int{}}
 
@@ -193,6 +209,14 @@ func runC14() *RunResult {
 	}
 	shared := soloParse(p, cfg)
 	simrt.SetMode(simrt.ModeOff)
+	if p.Model != nil && prefixFn.Fn != nil {
+		mv := modelEval(p.Model, doc.Val)
+		if len(mv) == 0 {
+			V = nil
+		} else {
+			V = mv
+		}
+	}
 	if shared.Fn == nil || prefixFn.Fn == nil {
 		// the path does not parse (e.g. a name step that needs no '$'): nothing to judge
 		res0.Sample = []string{"unparsable: " + p.Text + " => " + shared.Out}
@@ -367,6 +391,9 @@ func runC14() *RunResult {
 	}
 	if cfg.Accessor {
 		res.Probes["accessor-mode-case"]++
+	}
+	if p.Model != nil {
+		res.Probes["prefix-values-from-the-reference-model"]++
 	}
 	if len(V) > 1 {
 		res.Probes["multi-valued-prefix"]++
